@@ -63,7 +63,11 @@ def handle (line : String) : String :=
                 ((List.finRange nb).map fun ν => A1 I k a q ν) ++ ((List.finRange nb).map fun ν => A2 I k a q ν))
         let _ := colsIJ
         let C : List Rat := rows.flatMap fun (k, a) => rows.map fun (k', b) => cov I k a k' b
-        pure ((if A == A' then "same " else "differ ") ++ showList A ++ " | " ++ showList C)
+        -- full uu_inv in closed form, weights a2inv(cutoff, f, masked sigma)
+        let gii : Fin nii → Fin nb → Rat := fun q ν => a2inv cutoff (getR fii (q.1 * nb + ν.1)) (I.sigii q ν)
+        let gij : Fin nij → Fin nb → Rat := fun q ν => a2inv cutoff (getR fij (q.1 * nb + ν.1)) (I.sigij q ν)
+        let V : List Rat := rows.flatMap fun (k, a) => rows.map fun (k', b) => covInv I gii gij k a k' b
+        pure ((if A == A' then "same " else "differ ") ++ showList A ++ " | " ++ showList C ++ " | " ++ showList V)
       else none
     | "corr" | "d2f" =>
       let (np, c) ← c.nat?
